@@ -116,7 +116,22 @@ func (f *Fabric) hostOfCurrent() string {
 	return f.cfg.LocalIP
 }
 
+// SetLink sets the fault model of the direction src -> dst.
+func (f *Fabric) SetLink(src, dst string, l Link) {
+	f.mu.Lock()
+	if f.cfg.Links == nil {
+		f.cfg.Links = map[string]Link{}
+	}
+	f.cfg.Links[src+">"+dst] = l
+	f.mu.Unlock()
+}
+
+// SetTCPCut switches decision-chosen short reads on TCP connections on or off.
+func (f *Fabric) SetTCPCut(on bool) { f.mu.Lock(); f.cfg.TCPCut = on; f.mu.Unlock() }
+
 func (f *Fabric) link(src, dst string) Link {
+	f.mu.Lock()
+	defer f.mu.Unlock()
 	if l, ok := f.cfg.Links[src+">"+dst]; ok {
 		return l
 	}
@@ -186,6 +201,9 @@ type UDPConn struct {
 	groups  []net.IP
 	loop    bool
 	Lib     bool // created by library code
+	// LastRef is the wire-log sequence number of the send that produced the datagram returned
+	// by the most recent read (harness actors use it to recognise stale copies).
+	LastRef uint64
 }
 
 func opErr(op string, c *UDPConn, err error) error {
@@ -339,6 +357,7 @@ func (c *UDPConn) read(b []byte) (int, *net.UDPAddr, error) {
 			c.q = c.q[1:]
 			f.mu.Unlock()
 			n := copy(b, d.data)
+			c.LastRef = d.ref
 			f.rec(Rec{Kind: "read", Src: d.src.String(), Dst: c.local.String(), Data: d.data[:n], Ref: d.ref, Sock: c.Label})
 			return n, d.src, nil
 		}
